@@ -2471,6 +2471,11 @@ func (w *World) returnedValues(fn *ssa.Function, idx int, eval func(ssa.Value) (
 			switch t := lastInstr(b).(type) {
 			case *ssa.Return:
 				if idx < len(t.Results) {
+					// asked for what the helper hands back when it succeeds: a return whose
+					// error result is certainly not nil is not one of those
+					if w.successReturnsOnly && errResultIndex(fn) >= 0 && errResultIndex(fn) != idx && w.errState(t) == triNonNil {
+						break
+					}
 					curRet = b
 					curOrig = retResult(t, idx) // as written (a merge of sibling results is tested as the merge)
 					add(w.resolveValue(retResult(t, idx), st, eval, depth))
